@@ -165,7 +165,27 @@ def run_rules(prop: str, repo: Repo, tier: str, with_deps: bool = True) -> Ctx:
         from .depends import DEPENDS
         for dep, (rules, why) in DEPENDS.get(prop, {}).items():
             dmod = importlib.import_module(f"hipposa.rules.{dep.lower()}")
-            dmod.run(DependCtx(ctx, prop, dep, rules))
+            dctx = DependCtx(ctx, prop, dep, rules)
+            # call the selected rule functions directly when the module exposes them as rN(ctx), so that an
+            # analysis error in an unselected rule of the foundation property does not fail this property
+            import inspect
+            fns = []
+            for r in rules:
+                f = getattr(dmod, r.lower(), None)
+                if f is None:
+                    fns = None
+                    break
+                req = [p for p in inspect.signature(f).parameters.values()
+                       if p.default is inspect.Parameter.empty and p.kind in (p.POSITIONAL_ONLY, p.POSITIONAL_OR_KEYWORD)]
+                if len(req) != 1:
+                    fns = None
+                    break
+                fns.append(f)
+            if fns:
+                for f in fns:
+                    f(dctx)
+            else:
+                dmod.run(dctx)
             ctx.assume(f"depends on {dep} {'/'.join(rules)}: {why}")
     if not ctx.obligations:
         raise AnalysisError(f"{prop}: no obligations generated (vacuous)")
